@@ -196,6 +196,25 @@ impl U256Muldiv {
 //@ end
 }
 
+impl vstd::std_specs::convert::FromSpecImpl<u128> for U256Muldiv {
+    open spec fn obeys_from_spec() -> bool { false }
+    open spec fn from_spec(v: u128) -> Self { arbitrary() }
+}
+impl From<u128> for U256Muldiv {
+//@ fn math/u256_math.rs from in=/^impl From<u128> for U256Muldiv/ -> r
+    ensures r.view() == value as int,
+//@ end
+}
+impl vstd::std_specs::convert::FromSpecImpl<u64> for U256Muldiv {
+    open spec fn obeys_from_spec() -> bool { false }
+    open spec fn from_spec(v: u64) -> Self { arbitrary() }
+}
+impl From<u64> for U256Muldiv {
+//@ fn math/u256_math.rs from in=/^impl From<u64> for U256Muldiv/ -> r
+    ensures r.view() == value as int,
+//@ end
+}
+
 pub trait LoHi {
     fn lo(self) -> u64;
     fn hi(self) -> u64;
